@@ -18,6 +18,7 @@
  Rp presence      : optional numeric fields are tested with `is None` / membership, never by truthiness (0 is a value).
  Rv verbose       : blocks guarded by the verbose flag only report; the design does not depend on the logging flag.
  Rn arg roles     : a variable named like a parameter of the callee is handed to that parameter (no exchanged roles).
+ Rk field/key     : the amplifier parameter classes store every configuration entry under its own name (shared with C04).
 """
 import ast
 
@@ -435,6 +436,16 @@ def rn_arg_roles(ctx):
     ctx.check('Rn.arg-roles', 'argument / parameter name scan', True, 'C10|arg-roles-scan', '', f'{n} argument(s) named like another parameter judged')
 
 
+def rk_field_key(ctx):
+    """Rk: the amplifier parameter classes store every configuration entry under its own name (a stage limit read from the other
+    stage would change the NF a model is ranked with) - shared with C04-Rk"""
+    from ..fieldkey import field_key_rule
+    repo = ctx.repo
+    field_key_rule(ctx, 'Rk.field-key', [repo.cls('EdfaParams', 'gnpy.core.parameters'), repo.cls('EdfaOperational', 'gnpy.core.parameters')],
+                   'a candidate would be ranked / judged with the limits of another stage or parameter')
+    ctx.need('Rk.field-key', 20)
+
+
 from ..memo import rule_for as _memo_rule
 
 RULES_MEMO = ('Rm.memo', _memo_rule('C10', 'a model would be ranked or judged with the figures of another library or gain'))
@@ -445,4 +456,4 @@ from ..presence import rule_for as _presence_rule
 RULES_PRESENCE = ('Rp.presence', _presence_rule('C10', 'a legal zero would be read as missing'))
 
 RULES = [('R1.precedence', r1_precedence), ('R2.band-cover', r2_band_cover), ('R3.selection', r3_selection),
-         ('R4.raman-gate', r4_raman_gate), ('R5.capability', r5_capability), RULES_MEMO, RULES_PRESENCE, ('Rv.verbose-pure', rv_verbose), ('Rn.arg-roles', rn_arg_roles)]
+         ('R4.raman-gate', r4_raman_gate), ('R5.capability', r5_capability), RULES_MEMO, RULES_PRESENCE, ('Rv.verbose-pure', rv_verbose), ('Rn.arg-roles', rn_arg_roles), ('Rk.field-key', rk_field_key)]
